@@ -200,11 +200,13 @@ PROPS = {
         lean_modules=["Gowarc.Props.C04", "Gowarc.Props.C04junk", "Gowarc.Props.C04reads"],
         audit_namespaces=["Gowarc.Props.C04"],
         n_quick=1500, n_thorough=12000,
-        required_theorems=["C04_inv", "C04_tracked_size", "C04_offset", "C04_offset_stable", "C04_sequential", "C04_junk", "core_frame", "unmarshal_eq_core", "step_grows", "write_inv", "close_inv", "writeFailed_inv", "writeFailed_eq", "C04_offset_reads_back", "reads_at"],
+        required_theorems=["C04_inv", "C04_tracked_size", "C04_offset", "C04_offset_stable", "C04_sequential", "C04_junk", "core_frame", "unmarshal_eq_core", "step_grows", "write_inv", "close_inv", "writeFailed_inv", "writeFailed_eq", "C04_offset_reads_back", "reads_at",
+                           "C04_seg_offset", "writeSeg_inv", "writeSeg_state", "write_grows"],
         model_assumptions=["write histories include records the marshaler fails on (op `failed`: the fit test and a file creation happen, nothing of the record stays in the file); the harness makes the marshaler fail before the first byte, inside the header, inside the block and after the whole record",
                            "member bytes (the marshaler's and the compressor's output) are data: the harness measures each member's length on disk and hands it to the model; everything the writer decides is modelled",
                            "C04_sequential is stated for any self-delimiting codec (dec (enc x ++ rest) = some (x, rest)); that gowarc's marshal/gzip and unmarshal form such a codec is checked by the read-back oracle (independent scanner, fresh reader at every offset, sequential reader under three source behaviours), not proved",
-                           "one worker (deterministic); n workers are C09; segmentation (continuation records) is C10",
+                           "write histories include records the marshaler SEGMENTS (op `seg`: a first segment and a continuation record written by the nested write; one response naming the first segment, byte counts added: C04_seg_offset); the harness uses a segmenting marshaler with cut points anywhere in the block and sizes around the limit",
+                           "one worker (deterministic); n workers are C09",
                            "the float multiplication by the expected compression ratio is the parameter `scale`; the harness uses ratios that are exact in binary"],
         design_ref="DESIGN.md section 5, C04",
         level_text="State-machine model of singleWarcFileWriter (fit test, file creation, warcinfo, append, size tracking, close/rename/callback) with a reachable-state invariant: the tracked size equals the open file's length; theorems for every operation sequence: the reported offset is where "
@@ -217,7 +219,7 @@ PROPS = {
         lean_modules=["Gowarc.Props.C13", "Gowarc.Props.C13names"],
         audit_namespaces=["Gowarc.Props.C13"],
         n_quick=1500, n_thorough=12000,
-        required_theorems=["C13_info", "C13_no_info", "C13_names", "C13_callback", "C13_fit", "run_inv13",
+        required_theorems=["C13_info", "C13_no_info", "C13_names", "C13_callback", "C13_fit", "run_inv13", "failed_inv13",
                            "C13_generator_names_unique", "C13_next_name_differs", "default_name", "default_pattern_tokens", "pad_serial_injective"],
         model_assumptions=["as C04; in the writer model file names are identified with the serial number of the NewWarcfileName call that produced them (the writer scenarios use a counting generator); the real PatternNameGenerator and internal.Sprintt are modelled in Model/NameGen.lean and tied by kind `namegen` (default and custom patterns, flags 0 and -, widths, %s %d %v %%, custom parameters shadowed by built-in ones); C13_generator_names_unique: with the default pattern (regenerated from warcfile.go) names from different serials differ, for any prefix, extension, host and time stamps of equal length; int32 wrap-around of the serial and patterns outside the modelled grammar are outside the model; time formatting, host name and IP are inputs",
                            "a record is never split across files by construction of the model (files are lists of whole members); that the bytes on disk are such lists is judged by the independent scanner"],
